@@ -71,8 +71,25 @@ class MatchingRequestParameter(Parameter):
                 f"bytes, need at least {rq_pos + rq_len} bytes", EncodeError)
             return
 
-        encode_state.emplace_bytes(encode_state.triggering_request[rq_pos:rq_pos + rq_len],
-                                   self.short_name)
+        rq_data = encode_state.triggering_request[rq_pos:rq_pos + rq_len]
+
+        # the value of matching request parameters is determined by
+        # the request. if it is specified explicitly anyway, it must
+        # be identical to that.
+        if physical_value is not None:
+            if isinstance(physical_value, (bytes, bytearray)):
+                is_matching = bytes(physical_value) == bytes(rq_data)
+            else:
+                is_matching = isinstance(
+                    physical_value,
+                    int) and physical_value == int.from_bytes(rq_data, byteorder="little")
+            if not is_matching:
+                odxraise(
+                    f"Value for matching request parameter '{self.short_name}' "
+                    f"can only be specified as 0x{bytes(rq_data).hex()} "
+                    f"(is: {physical_value!r})", EncodeError)
+
+        encode_state.emplace_bytes(rq_data, self.short_name)
 
     @override
     def _decode_positioned_from_pdu(self, decode_state: DecodeState) -> ParameterValue:
